@@ -826,20 +826,24 @@ func main() {
 		chainBlocks = 3
 	}
 	cpres := chainPrestates()
-	cjobs := enumerateChains(cpres, chainBlocks)
+	cjobs := enumerateChains(cpres, 0)
 	cresults := make([]*chainResult, len(cjobs))
-	cvariantsOf := map[*prestate][]chainVariant{}
+	cvariantsOf := map[string][]chainVariant{}
 	nChainVariants := map[string]int{}
 	for _, p := range cpres {
-		cvariantsOf[p] = chainVariantsFor(p, chainBlocks)
-		nChainVariants[p.id()] = len(cvariantsOf[p])
+		for _, fam := range chainFamiliesFor(p) {
+			k := fmt.Sprintf("%s/%d-blocks", p.id(), fam.n)
+			cvariantsOf[k] = chainVariantsFor(p, fam.n)
+			nChainVariants[k] = len(cvariantsOf[k])
+		}
 	}
+	var recreatedInBlock int64
 	var recreated int64
 	var cmu sync.Mutex
 	var clearThenRead, readOK int64
 	cdone := par.For(int64(len(cjobs)), 1, r.Expired, func(i int64) {
 		j := cjobs[i]
-		cvariants := cvariantsOf[j.p]
+		cvariants := cvariantsOf[fmt.Sprintf("%s/%d-blocks", j.p.id(), len(j.blocks))]
 		cr := runChainCase(j, int(i), cvariants)
 		cresults[i] = cr
 		r.Add("chains", 1)
